@@ -224,7 +224,15 @@ pub fn check_input(entry: usize, ty: Ty, text: &[u8], l: &mut Local) -> CaseResu
 fn sep_alphabet(m: &FormatModel, ty: Ty, o: &OptModel) -> Vec<u8> {
     let top = vcore::numtext::digit_char((m.mantissa_radix() - 1) as u8);
     match ty {
-        Ty::Float(_) => vec![b'-', b'+', b'0', b'1', m.digit_separator, o.decimal_point, o.exponent, b'$'],
+        Ty::Float(_) => {
+            let mut v = vec![b'-', b'+', b'0', b'1', m.digit_separator, o.decimal_point, o.exponent, b'$'];
+            // mixed radices: a digit of one radix that is not a digit of the other
+            let (r, xr) = (m.mantissa_radix(), m.exponent_radix());
+            if r != xr {
+                v.push(vcore::numtext::digit_char((r.max(xr) - 1) as u8));
+            }
+            v
+        },
         Ty::Int(_) => vec![b'-', b'+', b'0', b'1', top, m.digit_separator, b'$'],
     }
 }
